@@ -1252,9 +1252,11 @@ void DFAContentModel::buildDFA(ContentSpecNode* const curNode)
                     for (unsigned int expIndex = 0; expIndex < curArraySize; expIndex++)
                     {
                         newToDo[expIndex] = statesToDo[expIndex];
-                        newFinalFlags[expIndex] = fFinalStateFlags[expIndex];
                         newTransTable[expIndex] = fTransTable[expIndex];
                     }
+                    // the flags of the states that have not been processed yet
+                    // are not set, so copy the bytes rather than bool values
+                    memcpy(newFinalFlags, fFinalStateFlags, curArraySize * sizeof(bool));
 
                     // Clean up the old stuff
                     fMemoryManager->deallocate(statesToDo); //delete [] statesToDo;
